@@ -13,9 +13,12 @@
 (*      to |auth| entries, last entry per id wins, EVERY remaining entry   *)
 (*      must pass verifySignatures, count of distinct ids >= threshold)    *)
 (*   Acceptance = "intended": accepted iff the property's quorum holds     *)
-(*   CountsUnverified: verifySignatures returns errors.Wrap(err, ..) with  *)
+(*   CountsUnverified: verifySignatures returned errors.Wrap(err, ..) with *)
 (*      err = nil when Verify answers (false, nil), i.e. a well-formed     *)
-(*      signature that does not verify PASSES (models.go:188-191)          *)
+(*      signature that does not verify PASSED and ended the verification   *)
+(*      of the remaining entries.  Found by this check, repaired in /repo  *)
+(*      by "fix: reject bridge mint signatures that do not verify"; the    *)
+(*      configs run with FALSE, TRUE documents the former behaviour.       *)
 (*   RewardNeedsStake: DistributeRewards credits nothing when the chosen   *)
 (*      authorizer's stake is below the pool's min stake (stakepool.go)    *)
 (***************************************************************************)
